@@ -60,8 +60,11 @@ def gen(rng, i, tier):
     rsf = int(rng.integers(0, 3))
     # a null-scattering sample (<b_coh>^2 exactly 0) in one case out of fifteen, for the functions that do not divide by it
     bcoh = 0.0 if (rsf != 2 and rng.random() < 0.07) else float(rng.uniform(0.5, 6))
+    rmax_ = float(rng.uniform(3, 6))
+    if cutkind == "ordinary" and rng.random() < 0.08:
+        cutoff, cutkind = rmax_ + 1.0, "whole-grid"     # the filter window covers the whole r grid
     return dict(qzero=qzero, cutkind=cutkind, q=tolist(q), s=tolist(s), rsf=rsf, rho=float(10 ** rng.uniform(-2, -0.5)), bcoh=bcoh,
-                lowq=bool(rng.random() < 0.4), cutoff=cutoff, rmin=rmin, rmax=float(rng.uniform(3, 6)),
+                lowq=bool(rng.random() < 0.4), cutoff=cutoff, rmin=rmin, rmax=rmax_,
                 rdelta=rdelta, ops=ops, nops=nops, rho2=float(10 ** rng.uniform(-2, -0.5)), bcoh2=float(rng.uniform(0.5, 6)),
                 retuned=any(o >= 5 for o in ops), switch=switch, rsf2=int(rng.integers(1, 3)), custom_title=bool(switch and rng.random() < 0.5), rmax2=float(rng.uniform(3, 6)), rdelta2=float(rng.choice([0.1, 0.2, 0.25, 0.05])),
                 qwin=(None if rng.random() < 0.6 else
